@@ -397,6 +397,10 @@ class Gen:
                     ('copy', 5), ('find', 8), ('probe', 12), ('restart', 1)],
         'find': [('open', 8), ('close', 3), ('login', 10), ('logout', 4), ('create', 30), ('destroy', 6), ('find', 30), ('setattr', 4),
                  ('copy', 4), ('restart', 2), ('closeall', 1)],
+        'tokens': [('inittoken', 14), ('open', 12), ('close', 6), ('closeall', 4), ('login', 12), ('logout', 5), ('create', 14), ('destroy', 4),
+                   ('find', 8), ('getattr', 5), ('restart', 8), ('initpin', 4), ('setpin', 4), ('sinfo_all', 10), ('sinfo', 6)],
+        'persist': [('create', 25), ('destroy', 8), ('setattr', 6), ('copy', 6), ('restart', 12), ('close', 5), ('closeall', 3), ('open', 8),
+                    ('login', 8), ('logout', 4), ('find', 12), ('getattr', 8)],
         'pins': [('open', 12), ('close', 5), ('login', 30), ('logout', 10), ('initpin', 10), ('setpin', 15), ('inittoken', 5), ('restart', 8),
                  ('sinfo_all', 4), ('create', 5), ('getattr', 5), ('find', 3)],
     }
